@@ -565,6 +565,24 @@ def replay(case):
             for v in viol[:5]:
                 print("still violates:", v["title"][:300])
             return bool(viol)
+        if "population" in c:
+            k, reps, small = c["population"]
+            text, markers = population_module(c["module"], k, reps, 800000 + 100 * (c["id"] - 950000), small)
+            open(os.path.join(scratch, c["module"] + ".py"), "w").write(text)
+            cj = os.path.join(scratch, "cases.json")
+            json.dump([{"id": c["id"], "module": c["module"], "versions": c["versions"], "annotate": c["annotate"],
+                        "compile_kw": c.get("compile_kw")}], open(cj, "w"))
+            res = {}
+            for gate in ("on", "off"):
+                outp = os.path.join(scratch, "out_%s.json" % gate)
+                subprocess.run(["/venv/bin/python", os.path.join(scratch, "driver.py"), gate, cj, outp], cwd=scratch, check=True,
+                               env=dict(os.environ, PYTHONHASHSEED="0", PYTHONDONTWRITEBYTECODE="1"))
+                res[gate] = json.load(open(outp))[0]
+            viol = []
+            check_result(c, {c["module"] + ".py": text}, markers, res["on"], res["off"], viol, common.Report(PID, "quick"))
+            for v in viol[:5]:
+                print("still violates:", v["title"][:300])
+            return bool(viol)
         rr = render.Renderer(c["recipe"], c["module"], c["module"].replace("gen_a", "gen_b"), leading_blank=c.get("leading_blank", 0),
                              line_comment=c.get("line_comment"))
         files = rr.render()
